@@ -84,7 +84,7 @@ class Fold:
       events:  list of dict(kind='call'|'store', callee/target, obj, args, guards, node)
     """
 
-    def __init__(self, func, call=None, atom=None, record_calls=None, inline=None, opaque_types=None):
+    def __init__(self, func, call=None, atom=None, record_calls=None, inline=None, opaque_types=None, snap=None):
         self.opaque_types = opaque_types      # regex: locals of these types stay named atoms (not folded)
         self.f = func
         self.call_hook = call
@@ -93,6 +93,8 @@ class Fold:
         # inline: None/"internal" = callees with internal linkage (static / anonymous namespace) defined in the analysed
         #         units and local lambdas are folded into the caller (depth <= 3); False = nothing; callable(qname, Func) -> bool
         self.inline = "internal" if inline is None else inline
+        self.exits = []                       # (kind, loop mark, guards): path conditions under which control already left
+        self.snap = snap                      # regex: stores whose target matches get a snapshot of the environment ('env')
         self.pending = []                     # (loop mark, guards, env) of `continue`s awaiting the merge at the end of the loop body
         self.loop_marks = []
         self.return_envs = []
@@ -271,19 +273,33 @@ class Fold:
         a, b = self.ev(n["then"], env), self.ev(n["else"], env)
         return self.ite(c, a, b)
 
+    @staticmethod
+    def is_condval(v):
+        return v is sp.true or v is sp.false or (isinstance(v, tuple) and len(v) >= 2 and v[0] in
+                                                 ("<", "<=", ">", ">=", "==", "!=", "&&", "||", "!", "ite"))
+
     def ite(self, c, a, b):
+        if (self.is_condval(a) or self.is_condval(b)) and not isinstance(a, Matrix) and not isinstance(b, Matrix):
+            if a == b:
+                return a
+            return ("ite", c, a, b)           # boolean-valued merge stays structured (decidable by cases)
         if isinstance(a, Matrix) and isinstance(b, Matrix) and a.shape == b.shape:
             return Matrix(a.shape[0], a.shape[1], lambda i, j: self.ite(c, a[i, j], b[i, j]))
         try:
             if not isinstance(a, tuple) and not isinstance(b, tuple) and not isinstance(a, Matrix) and not isinstance(b, Matrix):
                 if a == b or sp.expand(a - b) == 0:
                     return a
-            return F("ite")(S(self.cond_str(c)), self.scalarize(a), self.scalarize(b))
+            self.conds = getattr(self, "conds", {})
+            cs = self.cond_str(c)
+            self.conds[cs] = c
+            return F("ite")(S(cs), self.scalarize(a), self.scalarize(b))
         except TypeError:
             return S("ite(%s,%s,%s)" % (self.cond_str(c), a, b))
 
     def cond_str(self, c):
         if isinstance(c, tuple):
+            if len(c) == 4 and c[0] == "ite":
+                return "ite(%s, %s, %s)" % (self.cond_str(c[1]), self.cond_str(c[2]), self.cond_str(c[3]))
             if len(c) == 2:
                 return "%s(%s)" % (c[0], self.cond_str(c[1]))
             return "(%s %s %s)" % (self.cond_str(c[1]), c[0], self.cond_str(c[2]))
@@ -336,9 +352,24 @@ class Fold:
 
     def ev_throw(self, n, env):
         self.throws.append(list(self.guards))
+        self.event({"kind": "throw", "node": n}, env)
+        self.exits.append(("throw", None, list(self.guards)))
         raise Terminated()
 
+    def left(self):
+        """path conditions (guard lists) under which control has already left the current iteration / function"""
+        return [g for _k, _m, g in self.exits]
+
+    def event(self, e, env=None):
+        e["guards"] = list(self.guards)
+        e["not"] = self.left()
+        if env is not None and self.snap and re.search(self.snap, e.get("target") or e.get("callee") or ""):
+            e["env"] = env.copy()
+        self.events.append(e)
+
     def ev_lambda(self, n, env):
+        self.lambdas = getattr(self, "lambdas", {})
+        self.lambdas["lambda@%s" % n["id"]] = n
         return S("lambda@%s" % n["id"])
 
     def ev_sizeof(self, n, env):
@@ -367,13 +398,138 @@ class Fold:
                 return v
         callee = n.get("callee") or ""
         k = n["k"]
+        tgt = self.inline_target(n, env)
+        if tgt is not None:
+            return self.inline_call(n, tgt, env)
         args = [self.ev(a, env) for a in n.get("args", [])]
         obj = self.ev(n["obj"], env) if n.get("obj") is not None else None
         v = self.builtin(n, callee, k, obj, args, env)
         if self.record_calls and re.search(self.record_calls, callee):
-            self.events.append({"kind": "call", "callee": callee, "obj": obj, "args": args,
-                                "guards": list(self.guards), "node": n, "value": v})
+            self.event({"kind": "call", "callee": callee, "obj": obj, "args": args, "node": n, "value": v}, env)
         return v
+
+    # ------------------------------------------------------------------ inlining of local helpers
+    def inline_target(self, n, env):
+        """the Func (or lambda node) whose body replaces this call, or None"""
+        if self.inline is False or self.depth >= 3:
+            return None
+        k = n["k"]
+        if k == "opcall" and n.get("op") == "()" and n.get("args"):
+            a0 = unwrap(n["args"][0])
+            while a0.get("k") == "cast":
+                a0 = unwrap(a0["sub"])
+            v = env.get(a0.get("decl")) if a0.get("k") == "ref" else None
+            lam = getattr(self, "lambdas", {}).get(str(v)) if v is not None else None
+            if lam is not None and len(lam.get("params", [])) == len(n["args"]) - 1 and lam.get("body") is not None:
+                return ("lambda", lam)
+            return None
+        if k not in ("call", "mcall"):
+            return None
+        if k == "mcall" and n.get("obj") is not None and unwrap(n["obj"]).get("k") != "this":
+            return None
+        root = getattr(self, "root", None) or self.f
+        facts = getattr(root, "facts", None)
+        if facts is None:
+            return None
+        q = n.get("callee") or ""
+        cands = [g for g in facts.find(q) if g.j.get("body") and g.j.get("template") != "pattern" and len(g.j.get("params", [])) == len(n.get("args", []))]
+        if callable(self.inline):
+            cands = [g for g in cands if self.inline(q, g)]
+        else:
+            cands = [g for g in cands if g.j.get("internal") and g.file == root.file]
+        if len(cands) != 1 or cands[0] in getattr(self, "stack", []) or cands[0] is root:
+            return None
+        return ("func", cands[0])
+
+    def ev___val(self, n, env):
+        return n["v"]
+
+    def eval_lambda(self, lam, argvals, env=None):
+        """value returned by a lambda node applied to the given values (folded like an inlined helper)"""
+        call = {"k": "opcall", "op": "()", "id": "lam%s" % lam.get("id"), "args": [None] + [{"k": "__val", "v": v, "id": -1} for v in argvals]}
+        return self.inline_call(call, ("lambda", lam), env if env is not None else Env())
+
+    def inline_call(self, n, tgt, env):
+        kind, g = tgt
+        if kind == "lambda":
+            params, body, arg_nodes = g["params"], g["body"], n["args"][1:]
+            sub = env.copy()               # captures are read (and written) through the caller's variables
+        else:
+            params, body, arg_nodes = g.j["params"], g.j["body"], n.get("args", [])
+            sub = Env()
+            for key, v in env.items():
+                if isinstance(key, tuple):
+                    sub[key] = v
+        for p_, a in zip(params, arg_nodes):
+            sub[p_["decl"]] = self.ev(a, env)
+        if not hasattr(self, "root"):
+            self.root = self.f
+        self.stack = getattr(self, "stack", [])
+        saved = (self.f, self.returns, self.return_envs, self.loop_marks, self.pending)
+        if kind == "func":
+            self.f = g
+            self.stack.append(g)
+        self.returns, self.return_envs, self.loop_marks, self.pending = [], [], [], []
+        n_exits = len(self.exits)
+        self.depth += 1
+        self.inlined.append((n.get("callee") or "lambda", n))
+        mark = len(self.guards)
+        fell = True
+        try:
+            self.stmt(body, sub)
+        except Terminated:
+            fell = False
+        rets, renvs = self.returns, self.return_envs
+        self.f, self.returns, self.return_envs, self.loop_marks, self.pending = saved
+        self.exits = self.exits[:n_exits] + [x for x in self.exits[n_exits:] if x[0] == "throw"]   # the helper's returns end the helper only
+        if kind == "func":
+            self.stack.pop()
+        self.depth -= 1
+        del self.guards[mark:]
+        seq = [(v, gds, e) for (v, gds, _s), e in zip(rets, renvs)]
+        if fell:
+            seq.append((None, None, sub))
+        if not seq:
+            raise Terminated()            # the helper always throws
+        val, fin = seq[-1][0], seq[-1][2]
+        for v, gds, e in reversed(seq[:-1]):
+            cond = None
+            for c, pol, _n in gds[mark:]:
+                t = c if pol else ("!", c)
+                cond = t if cond is None else ("&&", cond, t)
+            if cond is None:
+                val, fin = v, e
+                continue
+            if v is not None and val is not None:
+                val = v if self.same(v, val) else self.ite(cond, v, val)
+            elif v is not None:
+                val = v
+            merged = fin.copy()
+            for key in set(e) | set(fin):
+                a, b = e.get(key), fin.get(key)
+                if a is not None and b is not None and not self.same(a, b):
+                    merged[key] = self.ite(cond, a, b)
+                elif b is None and a is not None:
+                    merged[key] = a
+            fin = merged
+        # effects: fields (same object) and non-const reference parameters; a lambda writes the caller's variables directly
+        if kind == "lambda":
+            pdecls = {p_["decl"] for p_ in params}
+            for key, v in fin.items():
+                if key not in pdecls and (key in env or isinstance(key, tuple)):
+                    env[key] = v
+        else:
+            for key, v in fin.items():
+                if isinstance(key, tuple):
+                    env[key] = v
+        written = self.assigned_in(body)
+        for p_, a in zip(params, arg_nodes):
+            t = (p_.get("type") or "").strip()
+            if t.endswith("&") and not t.startswith("const ") and p_["decl"] in written and p_["decl"] in fin:
+                self.store(a, fin[p_["decl"]], env, n)
+        if val is None:
+            return S("void@%s" % n["id"])
+        return val
 
     def builtin(self, n, callee, k, obj, args, env):
         short = callee.split("::")[-1]
@@ -519,12 +675,17 @@ class Fold:
             return
         if k == "member":
             env[("field", show(lhs))] = val
-            self.events.append({"kind": "store", "target": show(lhs), "field": lhs.get("field"), "value": val,
-                                "guards": list(self.guards), "node": node})
+            self.event({"kind": "store", "target": show(lhs), "field": lhs.get("field"), "value": val, "node": node}, env)
             return
         # element / accessor stores: x(i) = v, v.x() = ..., obj->F() = ...
-        self.events.append({"kind": "store", "target": show(lhs), "target_node": lhs, "value": val,
-                            "guards": list(self.guards), "node": node})
+        idx = None
+        if k in ("mcall", "opcall", "subscript"):
+            an = lhs.get("args", []) if k == "mcall" else (lhs["args"][1:] if k == "opcall" else [lhs["index"]])
+            try:
+                idx = [self.ev(a, env) for a in an]
+            except Terminated:
+                idx = None
+        self.event({"kind": "store", "target": show(lhs), "target_node": lhs, "value": val, "node": node, "idx": idx}, env)
         # component store into a local 3-vector
         if k in ("mcall", "opcall"):
             base = unwrap(lhs.get("obj") if k == "mcall" else lhs["args"][0])
@@ -584,6 +745,7 @@ class Fold:
             v = self.ev(s["value"], env) if s.get("value") is not None else None
             self.returns.append((v, list(self.guards), s))
             self.return_envs.append(env.copy())
+            self.exits.append(("return", None, list(self.guards)))
             raise Terminated()
         elif k == "if":
             self.do_if(s, env)
@@ -594,6 +756,7 @@ class Fold:
         elif k == "continue":
             if self.loop_marks:
                 self.pending.append((self.loop_marks[-1], list(self.guards), env.copy()))
+                self.exits.append(("continue", self.loop_marks[-1], list(self.guards)))
             raise LoopContinue()
         elif k == "break":
             raise LoopBreak()
@@ -800,6 +963,7 @@ class Fold:
     def end_loop(self, env):
         """merge the states captured at `continue` statements of the loop body that just ended into env"""
         mark = self.loop_marks.pop()
+        self.exits = [x for x in self.exits if not (x[0] == "continue" and x[1] == mark)]
         mine = [p for p in self.pending if p[0] == mark]
         self.pending = [p for p in self.pending if p[0] != mark]
         for _, guards, penv in reversed(mine):
